@@ -5,7 +5,7 @@
    UpdateMaxProbe never under-approximates, the growth policy does not shrink / probing reaches every bucket,
    CalcCapacity <= physical size); they are proved below for the kinds used by the extracted model. *)
 From Coq Require Import ZArith List Bool Permutation.
-From C11 Require Import GrowModel GenTie GenGrow GenFull GenFullP4 GenMove GenSame GenFacts GenFind GenClear.
+From C11 Require Import GrowModel GenTie GenGrow GenFull GenFullP4 GenMove GenSame GenFacts GenFind GenClear TableRel.
 Import ListNotations.
 Local Open Scope Z_scope.
 
@@ -48,6 +48,18 @@ Theorem C11_all_findable :
          In k (abs B s) <-> (exists loc : nat * Z * nat, hfind B b0 decode h wf0 start next nothrowReloc s k = Some loc).
 Proof. exact all_findable. Qed.
 Print Assumptions C11_all_findable.
+
+(* all_findable with the location spelled out: the triple (generation, bucket index, offset) that pvFind answers with names a table of the chain whose bucket at that index holds k at that offset (first occurrence in Bounds order). *)
+Theorem C11_all_findable_located :
+  forall (B : Type) (b0 : B) (decode : Z -> B -> Z) (h : Z -> Z) (cap : Z) (wf0 : bool) (start : Z -> Z -> Z)
+           (next : Z -> Z -> Z -> Z) (nothrowReloc : bool) (s : hset B) (k : Z),
+         Inv B b0 decode h cap wf0 start next nothrowReloc s ->
+         In k (abs B s) <->
+         (exists (g : nat) (idx : Z) (pos : nat) (t : table B),
+            hfind B b0 decode h wf0 start next nothrowReloc s k = Some (g, idx, pos) /\
+            nth_error (gens B s) g = Some t /\ bfind k (items B (getb B b0 wf0 t idx)) = Some pos).
+Proof. exact all_findable_located. Qed.
+Print Assumptions C11_all_findable_located.
 
 (* traversal_once.  One GetBegin()..GetEnd() traversal (pvInc/pvMove across buckets and generations) is a permutation of the contents without repetition: every element visited exactly once. *)
 Theorem C11_traversal_once :
@@ -865,6 +877,59 @@ Theorem C11_limp4_isfull_any_maxcount :
   forall (mc : Z) (s : Z -> Z) (p st : Z), 1 <= mc <= 4 -> Gen_P4S4.IsFull mc s p st = (s (mc - 1) <? 128).
 Proof. exact limp4_isfull_any_maxcount. Qed.
 Print Assumptions C11_limp4_isfull_any_maxcount.
+
+(* the generated empty BucketOpen2N2 bytes represent the model's empty bucket (count only: rel_o2 does not talk about WasFull). *)
+Theorem C11_o2_empty :
+  forall (B : Type) (wf0 : bool) (b0 : B), rel_o2 B BucketOps.O2.empty (emptyB B b0 wf0).
+Proof. exact o2_empty. Qed.
+Print Assumptions C11_o2_empty.
+
+(* generated BucketOpenN1::pvSetEmpty represents the model's empty bucket (count only). *)
+Theorem C11_n1_empty :
+  forall (B : Type) (rv : bool) (mc : Z),
+         1 <= mc <= 7 ->
+         forall (wf0 : bool) (b0 : B) (d : Z -> Z), rel_n1 B rv mc (Gen_OpenN1_ops.pvSetEmpty mc d) (emptyB B b0 wf0).
+Proof. exact n1_empty. Qed.
+Print Assumptions C11_n1_empty.
+
+(* table level, for ANY bucket relation (rel_o2, rel_n1, rel_p4_bucket, rel_one): the premise `Forall2 rel ds (tbs t)` of the refused_insert_full_iff_generated_IsFull_* theorems is established by a freshly created table from a related empty bucket ... *)
+Theorem C11_rel_table_new :
+  forall (B D : Type) (rel : D -> bucket B -> Prop) (d0 : D) (b0 : B) (wf0 : bool) (log : Z),
+         rel d0 (emptyB B b0 wf0) -> Forall2 rel (repeat d0 (Z.to_nat (2 ^ log))) (tbs B (newTable B b0 wf0 log)).
+Proof. exact rel_table_new. Qed.
+Print Assumptions C11_rel_table_new.
+
+(* ... preserved when bucket i is replaced by a related pair (the shape in which tadd / tremove change a table: setb; combine with the per-bucket *_add / *_remove lemmas) ... *)
+Theorem C11_rel_table_set :
+  forall (B D : Type) (rel : D -> bucket B -> Prop) (ds : list D) (t : table B) (i : Z) (d : D) (b : bucket B),
+         Forall2 rel ds (tbs B t) -> rel d b -> Forall2 rel (upd_nth (Z.to_nat i) d ds) (tbs B (setb B t i b)).
+Proof. exact rel_table_set. Qed.
+Print Assumptions C11_rel_table_set.
+
+(* ... and by pvClear (clearT). *)
+Theorem C11_rel_table_clear :
+  forall (B D : Type) (rel : D -> bucket B -> Prop) (ds : list D) (d0 : D) (b0 : B) (wf0 : bool) (t : table B),
+         Forall2 rel ds (tbs B t) -> rel d0 (emptyB B b0 wf0) -> Forall2 rel (map (fun _ : D => d0) ds) (tbs B (clearT B b0 wf0 t)).
+Proof. exact rel_table_clear. Qed.
+Print Assumptions C11_rel_table_clear.
+
+(* satisfiability of the premise: EVERY model table whose buckets hold at most 3 items has representing BucketOpen2N2<3> bytes (built from the generated empty state by the generated AddCrt). *)
+Theorem C11_o2_table_exists :
+  forall (B : Type) (t : table B),
+         (forall b : bucket B, In b (tbs B t) -> blen B b <= 3) ->
+         exists ds : list BucketOps.O2.st, Forall2 (rel_o2 B) ds (tbs B t).
+Proof. exact o2_table_exists. Qed.
+Print Assumptions C11_o2_table_exists.
+
+(* the same for BucketOpenN1<maxCount 1..7> (both layouts). *)
+Theorem C11_n1_table_exists :
+  forall (B : Type) (rv : bool) (mc : Z),
+         1 <= mc <= 7 ->
+         forall t : table B,
+         (forall b : bucket B, In b (tbs B t) -> blen B b <= mc) ->
+         exists ds : list (Z -> Z), Forall2 (rel_n1 B rv mc) ds (tbs B t).
+Proof. exact n1_table_exists. Qed.
+Print Assumptions C11_n1_table_exists.
 
 (* HashBucketOpen2N2<1> and HashBucketOpen2N2<3> translate to the same Gallina (maxCount is a Section variable): one proof covers all instantiations. *)
 Theorem C11_same_code_open2n2_policy :
